@@ -46,7 +46,7 @@ impl StateMetadataDocument {
       if did == PLACEHOLDER_DID.as_ref() {
         Ok(CoreDID::from(original_did.clone()))
       } else {
-        IotaDID::check_validity(&did).map_err(Error::DIDSyntaxError)?;
+        IotaDID::check_normalized(&did).map_err(Error::DIDSyntaxError)?;
         Ok(did)
       }
     };
